@@ -88,6 +88,18 @@ def isValidSymbol (s : String) : Bool :=
 /-- `util::is_valid_pragma`: an identifier, or identifiers joined by dots -/
 def isValidPragma (p : String) : Bool := ((splitOn '.' p.toList).map String.ofList).all isValidSymbol
 
+/-- `is_assignment_target`: can the expression stand on the left of `=`? (TypeScript's type-only wrappers don't matter) -/
+def isAssignmentTarget : Node → Bool
+  | .mk .ident _ _ => true
+  | .mk .member _ _ => true
+  | .mk (.other "SuperPropExpression") _ _ => true
+  | .mk .paren _ [e] => isAssignmentTarget e
+  | .mk (.other "TsAsExpression") _ [e, _] => isAssignmentTarget e
+  | .mk (.other "TsNonNullExpression") _ [e] => isAssignmentTarget e
+  | .mk (.other "TsSatisfiesExpression") _ [e, _] => isAssignmentTarget e
+  | .mk (.other "TsTypeAssertion") _ [e, _] => isAssignmentTarget e
+  | _ => false
+
 /-- `transform_modifiers` -/
 def transformModifiers (mods : List String) (quoteProp : Bool) : Option Node :=
   if mods.isEmpty then none
@@ -164,6 +176,10 @@ def parseVModel (value : Node) (isComponent : Bool) (argument : Option Node) (re
           | none => (st, v, argument, some (setOfList rest))      -- no modifier list in the array: the `_mod` suffixes apply
       | none => (st, v, nullArg argument, some (setOfList rest))
     | none => (st, attrValue, argument, some (setOfList rest))
+  -- the listener assigns to it
+  let (value, st) : Node × St :=
+    if isAssignmentTarget value then (value, st)
+    else (nEmptyIdent, st.err "Error: The value of `v-model` must be an assignable expression (an identifier or a member expression).")
   let nonEmpty := match modifiers with | some m => !m.isEmpty | none => false
   let transformed :=
     if !isComponent && nonEmpty then (match argument with | some a => some a | none => some nVoid0)
